@@ -410,9 +410,11 @@ def magic_constants(b):
     return out
 
 
-def check_magic_constants(rule, root=None):
+def check_magic_constants(rule, root=None, focus=None):
     """sibling assemblers that implement the same scalar algorithm use the same magic
-    constants: for each builder the non-empty constant sets form a chain by inclusion"""
+    constants: for each builder the non-empty constant sets form a chain by inclusion.
+    With `focus`, only disagreements in which the focus assembler is the odd one out
+    (or no majority exists) are reported."""
     sets = {}
     for kind in ALL:
         for name, b in M.load_builders(path_of(kind), root).items():
@@ -423,14 +425,25 @@ def check_magic_constants(rule, root=None):
                 sets.setdefault(name, {})[kind] = (s, b)
     for name, per in sorted(sets.items()):
         kinds = sorted(per)
-        bad = False
+        if focus is not None and focus not in per:
+            continue
+        conflicts = []
         for i, a in enumerate(kinds):
             for bk in kinds[i + 1:]:
                 sa, sb = per[a][0], per[bk][0]
                 if not (sa <= sb or sb <= sa):
-                    bad = True
-                    rule.bad("%s|%s~%s" % (name, a, bk), "%s: %s uses constants %s but %s uses %s; sibling implementations of one opcode must agree" % (name, a, sorted(sa - sb), bk, sorted(sb - sa)), "%s:%d" % (path_of(a), per[a][1].fn["ln"]))
-        if not bad:
+                    conflicts.append((a, bk))
+        if focus is not None:
+            mine = [c for c in conflicts if focus in c]
+            others = [k for k in kinds if k != focus]
+            # the focus is at fault only if it disagrees with siblings that agree among themselves
+            others_agree = not any(c for c in conflicts if focus not in c)
+            conflicts = mine if (mine and (others_agree and len(mine) == len(others) or len(others) == 1)) else []
+        if conflicts:
+            for a, bk in conflicts:
+                sa, sb = per[a][0], per[bk][0]
+                rule.bad("%s|%s~%s" % (name, a, bk), "%s: %s uses constants %s but %s uses %s; sibling implementations of one opcode must agree" % (name, a, sorted(sa - sb), bk, sorted(sb - sa)), "%s:%d" % (path_of(a), per[a][1].fn["ln"]))
+        else:
             rule.ok("%s: constants agree across %s" % (name, kinds), consts=sorted(per[kinds[0]][0])[:4])
 
 
